@@ -422,3 +422,62 @@ def realign_contract(qual, which):
         return c
     make.needs_engine = True
     return make
+
+
+# ------------------------------------------------------------------ do_sympy: every pass that rewrites functions leaves its round files (C03, C17, C15)
+def round_loop_obligations(fnode):
+    """Step (3) of a pass rewrites all_fun and extends the chains in memory; what duplicate_checker.main later combines are the ROUND FILES.  A pass whose files are not
+    written (or not counted in the number of rounds handed back) loses the maps it recorded.  Structural obligations on the two `while` loops of do_sympy:
+      - nothing leaves a pass early: no break / continue / return at the level of the loop body (inner loops may have their own);
+      - the body writes inv_idx_..._round_<k> and inv_subs_..._round_<k> with k built from the pass counter, under rank 0, and ends with the increment of that counter;
+      - the function returns the total number of passes (first-loop count + second-loop count)."""
+    import ast
+    if fnode.name != "do_sympy":
+        return []
+    loops = [s for s in fnode.body if isinstance(s, ast.While)]
+    if not loops:
+        return []
+    out = []
+
+    def escapes(stmts):
+        found = []
+        for s in stmts:
+            if isinstance(s, (ast.Break, ast.Continue, ast.Return)):
+                found.append((type(s).__name__.lower(), s.lineno))
+            elif isinstance(s, (ast.For, ast.While)):
+                # break / continue inside belong to the inner loop; a return would leave the function
+                found += [("return", n.lineno) for n in ast.walk(s) if isinstance(n, ast.Return)]
+            elif isinstance(s, (ast.FunctionDef, ast.ClassDef)):
+                continue
+            else:
+                for f in ("body", "orelse", "finalbody"):
+                    b = getattr(s, f, None)
+                    if isinstance(b, list):
+                        found += escapes(b)
+                for h in getattr(s, "handlers", []) or []:
+                    found += escapes(h.body)
+        return found
+    counters = []
+    for k, w in enumerate(loops):
+        esc = escapes(w.body)
+        out.append(("pass loop %d (line %d): nothing leaves a pass before its end%s" % (k, w.lineno, (" (found %s)" % esc) if esc else ""), not esc, w.lineno))
+        last = w.body[-1]
+        ctr = last.target.id if isinstance(last, ast.AugAssign) and isinstance(last.op, ast.Add) and isinstance(last.target, ast.Name) and \
+            isinstance(last.value, ast.Constant) and last.value.value == 1 else None
+        out.append(("pass loop %d: the body ends with the increment of its pass counter" % k, ctr is not None, last.lineno))
+        counters.append(ctr)
+        opens = [n for n in ast.walk(w) if isinstance(n, ast.Call) and isinstance(n.func, ast.Name) and n.func.id == "open" and n.args and "_round_" in ast.unparse(n.args[0])]
+        kinds = sorted({"inv_idx" if "inv_idx" in ast.unparse(n.args[0]) else "inv_subs" if "inv_subs" in ast.unparse(n.args[0]) else "?" for n in opens})
+        uses = all(ctr is not None and any(isinstance(m, ast.Name) and m.id == ctr for m in ast.walk(n.args[0])) for n in opens)
+        mode_w = all(len(n.args) > 1 and isinstance(n.args[1], ast.Constant) and n.args[1].value == "w" for n in opens)
+        out.append(("pass loop %d: every pass writes both round files (inv_idx, inv_subs), named after the pass counter, in truncating mode" % k,
+                    kinds == ["inv_idx", "inv_subs"] and uses and mode_w, w.lineno))
+    rets = [n for n in ast.walk(fnode) if isinstance(n, ast.Return) and isinstance(n.value, ast.Tuple) and len(n.value.elts) == 3]
+    ok = False
+    if rets and len(loops) == 2 and all(counters):
+        names = {m.id for m in ast.walk(rets[-1].value.elts[2]) if isinstance(m, ast.Name)}
+        # the first loop's count is saved under another name before the counter is reused
+        saved = {s.targets[0].id for s in fnode.body if isinstance(s, ast.Assign) and isinstance(s.targets[0], ast.Name) and isinstance(s.value, ast.Name) and s.value.id == counters[0]}
+        ok = counters[1] in names and bool(names & (saved | {counters[0]})) and isinstance(rets[-1].value.elts[2], ast.BinOp) and isinstance(rets[-1].value.elts[2].op, ast.Add)
+    out.append(("the number of rounds handed back is the number of passes of both loops", ok, rets[-1].lineno if rets else fnode.lineno))
+    return out
